@@ -24,9 +24,15 @@
    leaf.  Proved preserved by the proposals of a commit (for every member that stays), by the
    path for every receiver and for the committer, and established for every joiner; so, with
    PrivOK, decap always finds a ciphertext sealed to a key the member holds (C01).
+   The loops that WRITE the private keys - TreeKemPrivate::update_secrets (a joiner's keys from
+   the common ancestor upwards), the blanking loop of Group::provisional_private_tree,
+   update_leaf and the write loops of TreeKem::decap / encap - are translated from
+   tree_kem/private.rs, tree_kem/kem.rs and group/mod.rs on every run
+   (Gen/PrivGen.v: iterator chain, skip count, continue condition, written index, resize length,
+   compared node) and proved to compute join_priv / provisional_priv / decap_priv / encap_priv of the model.
    Statements only. *)
 From Coq Require Import NArith List.
-From MlsV Require Import Res TreeMathGen TreeMathProofs Tree TreeProofs TreeWF Kem Priv PrivProofs Decap DecapProofs TreeWF5 PrivComplete.
+From MlsV Require Import Res TreeMathGen TreeMathProofs Tree TreeProofs TreeWF Kem Priv PrivProofs Decap DecapProofs TreeWF5 PrivComplete PrivGen PrivGenProofs.
 Import ListNotations.
 Local Open Scope N_scope.
 
@@ -118,6 +124,27 @@ Example C09_ex :
   = [Some 30; Some 31; Some 102; None].
 Proof. vm_compute. reflexivity. Qed.
 
+Theorem C09_translated_update_secrets_is_the_model : forall t me ks leafkey jflt lca path,
+  small t -> 2 * me <= tlen t -> path_nodes t me = Ok path -> length jflt = length path ->
+  gen_update_secrets ks [Some leafkey] path jflt lca = join_priv ks me leafkey jflt lca.
+Proof. exact gen_update_secrets_on_the_direct_path. Qed.
+
+Theorem C09_translated_provisional_private_tree_is_the_model : forall tprov me pr own path,
+  path_nodes tprov me = Ok path ->
+  provisional_priv tprov me pr own =
+  Ok (let p1 := gen_provisional_blank (is_blank tprov) pr path in
+      match own with Some key => gen_update_leaf p1 key | None => p1 end).
+Proof. exact gen_provisional_is_model. Qed.
+
+Theorem C09_translated_decap_writes_are_the_model : forall pr pathlen nodes lca,
+  gen_decap_writes pr pathlen nodes lca = decap_priv pr pathlen lca nodes.
+Proof. exact gen_decap_writes_is_model. Qed.
+
+Theorem C09_translated_encap_writes_are_the_model : forall pr path flt fk leafkey,
+  length flt = length path ->
+  gen_encap_writes pr path flt fk leafkey = encap_priv pr (length path) flt fk leafkey.
+Proof. exact gen_encap_writes_is_model. Qed.
+
 Print Assumptions C09_proposals_keep_privok.
 Print Assumptions C09_receiver_keeps_privok.
 Print Assumptions C09_committer_privok.
@@ -131,3 +158,7 @@ Print Assumptions C09_complete_for_the_committer.
 Print Assumptions C09_complete_for_joiners.
 Print Assumptions C09_nonblank_ancestor_is_never_filtered.
 Print Assumptions C09_complete_after_an_own_update.
+Print Assumptions C09_translated_update_secrets_is_the_model.
+Print Assumptions C09_translated_provisional_private_tree_is_the_model.
+Print Assumptions C09_translated_decap_writes_are_the_model.
+Print Assumptions C09_translated_encap_writes_are_the_model.
